@@ -86,6 +86,9 @@ type jop struct {
 }
 
 type jcase struct {
+	// Kind "" = ordinary history; "known-mutate" = the stored history of finding C13-mutate-supervoxel-ids,
+	// printed as zKnownMutate and judged by the dedicated class 20 of Model/AnnotRun.v
+	Kind   string   `json:"kind,omitempty"`
 	Paint0 []jpaint `json:"paint0"`
 	Q0     []jquery `json:"q0,omitempty"`
 	Ops    []jop    `json:"ops"`
@@ -1632,7 +1635,12 @@ func runStored(run *lib.Run, kind string, jc jcase) {
 			break
 		}
 	}
-	run.Add(kind, h.term(), jc, opKey(jc.Ops))
+	term := h.term()
+	if jc.Kind == "known-mutate" {
+		kind = "known:mutate-supervoxel-ids"
+		term = "(zKnownMutate" + strings.TrimPrefix(term, "(zCase")
+	}
+	run.Add(kind, term, jc, opKey(jc.Ops))
 }
 
 func runRandom(run *lib.Run, r *lib.Rand, nops int) {
@@ -1693,6 +1701,13 @@ func corpus() []jcase {
 			{Op: "move", P: pos{12, 15, 0}, Q: pos{15, 0, 15}},
 			{Op: "delete", P: pos{-1, 15, 15}, Queries: []jquery{{Q: "region", Off: all, Size: pos{40, 24, 24}}}},
 		}},
+		// (iv) recorded finding C13-mutate-supervoxel-ids (findings/C13.json): a voxel edit of a block whose
+		// supervoxels were merged; mutateBlock reads the supervoxel ids of the event as body labels
+		{Kind: "known-mutate", Paint0: pt, Ops: []jop{
+			{Op: "post", Elems: []elem{{Pos: pos{9, 1, 1}, Kind: 4}}},
+			{Op: "merge", Target: 1, Labels: []uint64{2}},
+			{Op: "mutate", B: pos{0, 0, 0}, Paint: []jpaint{{0, 7, 1}, {8, 15, 4993}}, Force: true},
+		}},
 	}
 }
 
@@ -1716,9 +1731,9 @@ func main() {
 		}
 		runStored(run, "history", jc)
 	} else {
-		n := 13
+		n := 14
 		if o.Thorough() {
-			n = 120
+			n = 121
 		}
 		if o.N > 0 {
 			n = o.N
